@@ -35,6 +35,19 @@ def make_top(p, ins, outs, body, name='top', clsname='Top', hw=None):
     return T(hw, name)
 
 
+def make_inner(p, parent, name, ins, outs, body, clsname='Inner', structure=None):
+    """a user-defined structural block inside `parent`: ins/outs = [(port name, wire of the parent)]"""
+    def init(self, par, nm):
+        p.Logic.__init__(self, par, nm)
+        I = [self.addIn(n, w) for n, w in ins]
+        O = [self.addOut(n, w) for n, w in outs]
+        body(self, I, O)
+    d = {'__init__': init}
+    if structure is not None:
+        d['structureName'] = lambda self: structure
+    return type(clsname, (p.Logic,), d)(parent, name)
+
+
 def spec_reserved_words():
     """the IEEE 1364-2005 keyword list of coq/Spec/C03.v (single source: the Coq spec)"""
     import os, re
@@ -62,7 +75,7 @@ def library(quick):
     bin_cls = ['Add', 'Sub', 'Mul', 'SignedMul', 'Div', 'Mod', 'And2', 'Or2', 'Xor2', 'Nand2', 'Nor2', 'SignedSub', 'SignedDiv',
                'Max2', 'Min2', 'SignedMax2', 'SignedMin2']
     for cls in bin_cls:
-        grid = [(w, w, w) for w in W] + ([(3, 8, 8), (8, 3, 5), (1, 8, 9)] if quick else [(a, b, r) for a in WS for b in WS for r in WS])
+        grid = [(w, w, w) for w in W] + ([(3, 8, 8), (8, 3, 5), (1, 8, 9)] if quick else [(a, b, r) for a in [1, 3, 8, 32] for b in [1, 3, 8, 32] for r in [1, 3, 8, 32]])
         for (wa, wb, wr) in dict.fromkeys(grid):
             A(_blk(cls, [('a', wa), ('b', wb)], [('r', wr)], lambda p, t, I, O, cls=cls: getattr(p, cls)(t, 'dut', I[0], I[1], O[0]), wa=wa, wb=wb, wr=wr))
     # Add / SignedAdd with carries
@@ -111,7 +124,10 @@ def library(quick):
         A(_blk('Mux2', [('s', 1), ('a', w), ('b', w)], [('r', w)], lambda p, t, I, O: p.Mux2(t, 'dut', I[0], I[1], I[2], O[0]), w=w))
         A(_blk('BufEnable', [('a', w), ('en', 1)], [('r', w)], lambda p, t, I, O: p.BufEnable(t, 'dut', I[0], I[1], O[0]), w=w))
         A(_blk('CountLeadingZeros', [('a', w)], [('r', max(1, w.bit_length())), ('z', 1)], lambda p, t, I, O: p.CountLeadingZeros(t, 'dut', I[0], O[0], O[1]), w=w))
-        A(_blk('PriorityEncoder', [('a', w)], [('r', max(1, (w - 1).bit_length()))], lambda p, t, I, O: p.PriorityEncoder(t, 'dut', I[0], O[0]), w=w))
+        if w <= 9:
+            for incp in [True, False]:
+                A(_blk('PriorityEncoder', [('a%d' % i, 1) for i in range(w)], [('r%d' % i, 1) for i in range(w)],
+                       lambda p, t, I, O, incp=incp: p.PriorityEncoder(t, 'dut', I, O, inc_priority=incp), w=w, inc_priority=incp))
         A(_blk('BinaryToBCD', [('a', w)], [('r', 4 * len(str((1 << w) - 1)))], lambda p, t, I, O: p.BinaryToBCD(t, 'dut', I[0], O[0]), w=w))
         for sw in ([1, 2, 3] if w <= 16 else [3]):
             for cls in ['ShiftLeft', 'ShiftRight', 'RotateLeft', 'RotateRight']:
@@ -146,7 +162,7 @@ def library(quick):
     # ---- sequential
     for w in W:
         for en, rs in itertools.product([False, True], [False, True]):
-            for rv in ([None, 1, -1] if quick else [None, 0, 1, (1 << w) - 1, 1 << w, -1, -5]):
+            for rv in ([None, 1, -1] if quick else [None, 1, (1 << w) - 1, 1 << w, -1]):
                 ins = [('d', w)] + ([('en', 1)] if en else []) + ([('rs', 1)] if rs else [])
                 def body(p, t, I, O, en=en, rs=rs, rv=rv):
                     p.Reg(t, 'dut', I[0], O[0], enable=I[1] if en else None, reset=I[-1] if rs else None, reset_value=rv)
@@ -332,6 +348,15 @@ def adversarial(quick):
         def b_out(p, wd=wd):
             return make_top(p, [('a', 4)], [(wd, 4), ('reserved_' + wd, 4)], lambda t, I, O: (p.Not(t, 'g', I[0], O[0]), p.Buf(t, 'h', I[0], O[1])))
         A(Case('reserved_port_collision[%s]' % wd, 'adversarial', {'kind': 'reserved_port_collision', 'word': wd}, b_out))
+    # reserved words as port names of an INSTANTIATED module (header and connection must agree on the renaming)
+    for wd in words[:: (2 if quick else 3)]:
+        def b_child(p, wd=wd):
+            def body(t, I, O):
+                m = t.wire('m', 4)
+                make_inner(p, t, 'u0', [(wd, I[0]), ('b', I[1])], [('reg' if wd != 'reg' else 'wire', m)], lambda tt, II, OO: p.And2(tt, 'g', II[0], II[1], OO[0]), clsname='InnerA')
+                make_inner(p, t, 'u1', [('input' if wd != 'input' else 'output', m)], [(wd, O[0])], lambda tt, II, OO: p.Not(tt, 'g', II[0], OO[0]), clsname='InnerB')
+            return make_top(p, [('a', 4), ('b', 4)], [('r', 4)], body)
+        A(Case('reserved_ports_of_child[%s]' % wd, 'adversarial', {'kind': 'reserved_child_port', 'word': wd}, b_child))
     # names colliding after the w_ / i_ prefixes
     def b_w(p):
         def body(t, I, O):
